@@ -86,6 +86,8 @@ Inductive case :=
 | CCbT (m : meth) (c : tcbk) (recv : list elem) (o : obs)      (* throwing callback *)
 | CCbM (m : meth) (c : mcbk) (recv : list elem) (o : obs)      (* callback mutating the receiver *)
 | CSeq (recv : list elem) (steps : list (sstep * obs))
+(* $a->m1(..)->m2(..) as script text; o = (result of the chain, $a afterwards) *)
+| CChain (recv : list elem) (s1 s2 : sstep) (o : obs)
 (* a call written with named arguments; pn = the parameter names and kinds of the real method
    object (measured by the engine), pos = the positional arguments, named = the name: value pairs *)
 | CNamed (m : meth) (pn : list (string * pkind)) (recv pos : list elem) (named : list (string * elem)) (o : obs).
@@ -212,4 +214,15 @@ Definition check_case (c : case) : list nat :=
       (if pair_agree expected o then [] else [1%nat; 2%nat]) ++
       (if not_panic o then [] else [4%nat])
   | CSeq recv steps => check_seq 0 recv steps
+  | CChain recv s1 s2 o =>
+      (match run_chain recv (step_of s1) (step_of s2) with
+       | Some p => if pair_agree p o then [] else [1%nat]
+       | None => [1%nat]
+       end) ++
+      (match spec_chain recv (step_of s1) (step_of s2) with
+       | Some q => if pair_agree q o then [] else [2%nat]
+       | None => []
+       end) ++
+      (if frame_ok (step_meth s1) recv o then [] else [3%nat]) ++
+      (if not_panic o then [] else [4%nat])
   end.
